@@ -908,6 +908,8 @@ static const uint8_t *unmarshal_one_def(
     const uint8_t *data,
     JanetFuncDef **out,
     int flags) {
+    /* Sub-definitions nest without passing through unmarshal_one */
+    MARSH_STACKCHECK;
     MARSH_EOS(st, data);
     if (*data == LB_FUNCDEF_REF) {
         data++;
